@@ -46,6 +46,7 @@ type backendCfg struct {
 
 type simCfg struct {
 	Strategy string       `json:"strategy"`
+	SameHost bool         `json:"samehost"` // every backend lives on one host name, told apart by the port only
 	Backends []backendCfg `json:"backends"`
 	Passive  struct {
 		On  bool `json:"on"`
@@ -295,7 +296,17 @@ func hdrName(configured, def string) string {
 	return strings.TrimSpace(configured)
 }
 
-func hostOf(name string) string { return name + ".backend.test:80" }
+var sameHost bool
+
+// hostOf: the address of a backend by its name ("b3" -> b3.backend.test:80, or backend.test:8003 on one shared host)
+func hostOf(name string) string {
+	if sameHost {
+		n := 0
+		fmt.Sscanf(name, "b%d", &n)
+		return fmt.Sprintf("backend.test:%d", 8000+n)
+	}
+	return name + ".backend.test:80"
+}
 
 type fakeConn struct{ closed bool }
 
@@ -323,6 +334,7 @@ type sim struct {
 }
 
 func (s *sim) buildConfig() *config.Config {
+	sameHost = s.sc.Cfg.SameHost
 	c := &config.Config{}
 	c.Server.Port = 8080
 	sc := s.sc.Cfg
